@@ -78,3 +78,54 @@ func VerifH_C02_c() {
 	}
 	vAssert("selfdestruct/contract-emptied-again", st.GetBalance(c).Sign() == 0)
 }
+
+// H-C02-f: a SELFDESTRUCT inside a frame that is later reverted creates nothing. The real opSuicide over the
+// real StateDB between Snapshot and RevertToSnapshot (the enclosing frame or the whole transaction failing),
+// arbitrary balances, base fee and fork regime, beneficiary existing or not, optionally a second
+// self-destruct of the same contract in the reverted frame: afterwards every balance is exactly what it was
+// before, the contract is not marked destroyed, and a later committed self-destruct pays exactly
+// balance + one refund.
+func VerifH_C02_f() {
+	st := newRealState()
+	c, b := modelInternal(0x0c), modelInternal(0x0b)
+	balC, balB := vBigN("contractBalance", 128), vBigN("beneficiaryBalance", 128)
+	st.AddBalance(c, balC)
+	st.SetNonce(c, 1)
+	if vBool("beneficiaryExists") {
+		st.AddBalance(b, balB)
+	} else {
+		balB = new(big.Int)
+	}
+	st.AddAddressToAccessList(c.Bytes20())
+	st.AddAddressToAccessList(b.Bytes20())
+	evm := &EVM{StateDB: st, chainConfig: &params.ChainConfig{Location: vLoc},
+		Context: BlockContext{PrimeTerminusNumber: vU64("primeTerminusNumber"), BaseFee: vBigN("baseFee", 64), QuaiStateSize: big.NewInt(1000000),
+			CanTransfer: modelCanTransfer, Transfer: modelTransfer}}
+	contract := &Contract{self: AccountRef(common.Bytes20ToAddress(c, vLoc))}
+	interp := &EVMInterpreter{evm: evm}
+	selfdestruct := func() error {
+		stack := newstack()
+		stack.push(new(uint256.Int).SetBytes(b[:]))
+		pc := uint64(0)
+		_, err := opSuicide(&pc, interp, &ScopeContext{Memory: NewMemory(), Stack: stack, Contract: contract})
+		return err
+	}
+	refund := new(big.Int).Mul(evm.Context.BaseFee, new(big.Int).SetUint64(params.CallNewAccountGas(evm.Context.QuaiStateSize)))
+	c0, b0 := new(big.Int).Set(st.GetBalance(c)), new(big.Int).Set(st.GetBalance(b))
+
+	snap := st.Snapshot()
+	vAssert("selfdestruct/ok", selfdestruct() == nil)
+	if vBool("twiceInTheRevertedFrame") {
+		vAssert("selfdestruct/second-ok", selfdestruct() == nil)
+	}
+	st.RevertToSnapshot(snap)
+	vReach("reverted")
+	vAssert("revert/contract-balance-restored", st.GetBalance(c).Cmp(c0) == 0)
+	vAssert("revert/beneficiary-balance-restored", st.GetBalance(b).Cmp(b0) == 0)
+	vAssert("revert/contract-not-destroyed", !st.HasSuicided(c))
+
+	vAssert("selfdestruct/committed-ok", selfdestruct() == nil)
+	vReach("committed")
+	vAssert("commit/contract-emptied", st.GetBalance(c).Sign() == 0 && st.HasSuicided(c))
+	vAssert("commit/beneficiary-gets-balance-plus-one-refund", st.GetBalance(b).Cmp(new(big.Int).Add(new(big.Int).Add(b0, c0), refund)) == 0)
+}
